@@ -218,7 +218,7 @@ func checkC17(ctx *Ctx) {
 		// with one slot the pair must hang on the real code too
 		c := c17Case{N: 1, Bytes: 100, Max: 1}
 		d, pre := c.desc()
-		rr := RunWorkflow(d, RunOpts{Pre: pre, Timeout: 6e9})
+		rr := RunWorkflow(d, RunOpts{Pre: pre, Timeout: 6e9, NoRetry: true})
 		os.RemoveAll(rr.Dir)
 		ctx.Res.Count("one-slot-pair(model: deadlock)")
 		if rr.Exit != -2 {
